@@ -250,6 +250,15 @@ Theorem block_atomic_refuted_removal_inside :
 Proof. exact removal_in_failed_block_p. Qed.
 Print Assumptions block_atomic_refuted_removal_inside.
 
+(* the same finding costs the user's SOURCE file when the dataset was ingested with transfer="move" inside that block: the
+   rollback's "move the artifact back" finds no artifact, DatastoreTransaction.rollback swallows the error (no injected
+   fault; VERIF_SEED=4 generated it: corpus/C07/removals.json, 5th) *)
+Theorem block_atomic_refuted_removal_inside_loses_staged_file :
+  let '(s', r) := exec shipped (PBlock [POp (Ingest Move 2); POp (Purge 2); PFail]) (init e0) in
+  r = Raised false /\ cur s' = cur (init e0) /\ fget 2 (ext (init e0)) = Some 102 /\ fget 2 (ext s') = None /\ fget 2 (fs s') = None.
+Proof. exact staged_file_lost_p. Qed.
+Print Assumptions block_atomic_refuted_removal_inside_loses_staged_file.
+
 (* leftovers_collected_by_empty_trash: two fault positions of a purge leave an artifact nothing refers to *)
 Theorem leftovers_refuted_trash_insert_swallowed :
   exists j, let '(s', r) := exec shipped (POp (Purge 1)) (with_fuse j s_one) in
